@@ -8,4 +8,13 @@ def obligations(prog, src, tier, seed):
     import ob_sched
     depth = int(os.environ.get("SCHED_DEPTH", "4" if tier == "quick" else "6"))
     obs += ob_sched.obligations(prog, src, tier, seed, "C04", n_req=2, depth=depth, classes=('C04',))
+    # "cancelling a request that has not used a connection ... does not cause additional dials": a request
+    # that is dialing must still be served by a released connection after a sibling attempt was abandoned
+    for o in ob_sched.obligations(prog, src, tier, seed, "C04", classes=("C14",)):
+        if o["name"].endswith("preempt_by_released_connection"):
+            base = o["check"]
+            obs.append(dict(o, name="c04_cancel_does_not_cost_a_dial",
+                            check=lambda p, base=base: [(lbl.replace("[C14]", "[C04] (would dial although a released connection is available)"), pr) for lbl, pr in base(p)]))
+    if tier == "thorough":
+        obs += [dict(o, name=o["name"] + "_3req") for o in ob_sched.obligations(prog, src, tier, seed, "C04", n_req=3, depth=5, classes=('C04',)) if "schedules" in o["name"]]
     return obs
